@@ -25,15 +25,29 @@ CHECKS = {
  "C09": dict(level="fault_enumeration", technique="runtime monitoring with injected crashes at every task boundary and every data-chunk write (store tracer raises), then compute(resume=True) on real executors under the store tracer and a recording callback; real os._exit crashes resumed from a fresh process are sampled",
    text="For each small program every crash point at task and chunk-write granularity is enumerated (sampled above the cap); the resumed run must refuse up front or reproduce the uninterrupted values, must not delete or change any chunk file that existed after the crash, must not re-execute operations that had completed (except create-arrays / 0-d outputs) and must not skip incomplete ones.",
    note="Injected crashes are Python exceptions raised at the store boundary; true process death is exercised by the os._exit variant. Tasks are assumed deterministic (C06).", ref="3/C09"),
+ "C10": dict(level="exploration", technique="runtime monitoring of API histories: a NumPy shadow of a pool of related lazy arrays is kept alongside random sequences of derive/compute/store/to_zarr/re-compute/config-change calls; after every step sampled members are computed and compared, and directory digests of inputs and of earlier store targets are re-checked",
+   text="Histories exercise the real API in arbitrary order, in particular storing arrays that other pool members were derived from, lazily and eagerly, into new and existing targets, and computing with resume/optimisation/executor variations; held = every probe equalled the shadow and no input or earlier target changed, on the histories listed.",
+   note="Values via NumPy shadow; 'unchanged' via blake2 digests of every file of a directory. Explicit refusals (ValueError/TypeError/NotImplementedError) while deriving or storing are allowed.", ref="3/C10"),
+ "C11": dict(level="exploration", technique="runtime monitoring: sentinel-prefilled targets read back with plain zarr and compared with a NumPy paste model; store trace inspected for writes before a rejection",
+   text="The call-shape matrix (source kind x target kind x region kind incl. misaligned, wrong-shape and overhanging regions x store/to_zarr x eager/lazy x pair lists x executor) is sampled with random geometry in each cell; every accepted call must leave exactly 'sentinel with the source pasted into the region' in every target; a rejected call must not have written to the target.",
+   note="Sentinel value must not occur in source data (harness-controlled). Targets are local directory stores.", ref="3/C11"),
  "C12": dict(level="exploration", technique="runtime monitoring: block-write hook (value shape vs region shape for every block written by every task) + declared-vs-computed-vs-stored metadata comparison",
    text="All block writes of generated plans (unoptimised so that every intermediate is written, and optimised) are observed at zarr.Array.__setitem__; a value whose shape differs from its region is a silent broadcast. Declared shape/dtype/chunks are compared with the computed result and with the backing Zarr array's metadata.",
    note="Hook sees writes in the client process (single-threaded and threads executors).", ref="3/C12"),
  "C13": dict(level="exploration", technique="runtime monitoring: recording Callback on the real executors, judged against the finalized plan delivered with the compute-start event and len(pipeline.mappable)",
    text="For every operation of every generated plan: advertised num_tasks == length of its task list == sum of task-end notifications; exactly one start/end per operation and per computation, in order; on single-threaded, threads (batching, compute_arrays_in_parallel) and processes.",
    note="Callbacks are observed in the client process; executors other than the three local ones are not installed.", ref="3/C13"),
+ "C16": dict(level="exploration", technique="runtime monitoring: store tracer (no set/delete/data get), work-directory snapshot and an execution-attempt counter on FinalizedPlan.execute while every public callable is invoked and results are planned, visualised and inspected; documented triggers asserted to execute",
+   text="The public surface found by introspection is exercised through the recipe generator and a direct-call table (incl. plans of rechunks with rectilinear intermediates under tight memory); any store write, data read, new file or execution attempt during build/plan/visualize/inspect is a violation; a public callable never exercised makes the run inconclusive.",
+   note="take()/indexing with a cubed array, compute, eager store/to_zarr and scalar/array conversions are the documented triggers and are checked to be triggers.", ref="3/C16"),
  "C17": dict(level="exploration", technique="runtime monitoring: exception type and phase (build / plan / after executor entry, decided by a wrapping executor's entry counter) for recipes NumPy can evaluate",
    text="Generated expressions biased to unsupported corners are built, planned and executed; any exception must be ValueError/TypeError/NotImplementedError/IndexError raised before the executor is entered. Held = no other type and no mid-run failure on the runs listed, apart from the open known finding about zero-length dimensions (half of the budget cannot reach it).",
-   note="Fault-free runs only. Exceptions with no cubed frame during recipe construction are harness errors (inconclusive).", ref="3/C17"),
+   note="Fault-free runs only. Exceptions with no cubed frame during recipe construction are harness errors (inconclusive).", ref="3/C17"), "C19": dict(level="exploration", technique="runtime monitoring: differential outcomes (accepted / type+phase of refusal / values) of one recipe under resource-configuration variants, compared pairwise with the explicit-default variant, plus NumPy",
+   text="Every generated expression is built and computed under the global default config (spec=None), an explicit equal Spec, another work_dir, an intermediate_store, compressor None/explicit, reserved_mem 0, executor named in the Spec and a larger allowed_mem; acceptance and bit-exact values must agree.",
+   note="Allowed memory is ample everywhere (so admission never differs legitimately); machine-memory checks of the threads executor are kept satisfiable.", ref="3/C19"),
+ "C20": dict(level="exploration", technique="runtime monitoring across processes: arrays built in a child process are shipped with cloudpickle and computed/combined in a receiver whose name counters are set to chosen values; NumPy oracle",
+   text="Shipped arrays are computed alone, after a same-process round trip, as left and right operand with locally built arrays, and with arrays derived from themselves, for receivers that have created 0..k arrays (names overlapping the child's or beyond them). The open finding (name collisions) is matched only when names really coincide; the disjoint stratum cannot reach it.",
+   note="Receiver history emulated by setting cubed's per-process counters; child and receiver share a filesystem.", ref="3/C20"),
 }
 
 def main():
